@@ -262,15 +262,15 @@ class ProgramVerifier:
                 if e.cls not in ALLOWED_SER_EXC:
                     ex.oblige("no-exc", z3.BoolVal(False), f"{e.cls}@L{line}",
                               {"why": f"{e.cls} escapes from serialize", "property": "C16"})
-                ex.oblige("mode-restored-on-raise", wobj.fields["_string_sanitization_mode"] == san0, f"{e.cls}@L{line}",
+                ex.oblige("mode-restored-on-raise", ex.obj(w).fields["_string_sanitization_mode"] == san0, f"{e.cls}@L{line}",
                           {"why": "sanitisation mode not restored when serialize raises", "property": "C15"})
                 return
             wire, valid = os_.wire_and_valid(san0)
-            ex.oblige("mode-restored", wobj.fields["_string_sanitization_mode"] == san0, "normal",
+            ex.oblige("mode-restored", ex.obj(w).fields["_string_sanitization_mode"] == san0, "normal",
                       {"why": "sanitisation mode after serialize differs from the mode on entry", "property": "C15"})
             ex.oblige("refuses-invalid", valid, "normal",
                       {"why": "serialize returned normally for an object that violates its declaration", "property": "C16"})
-            ex.oblige("wire", wobj.fields["data"].t == z3.Concat(d0, wire), "normal",
+            ex.oblige("wire", ex.obj(w).fields["data"].t == z3.Concat(d0, wire), "normal",
                       {"why": "bytes differ from the wire format the XML prescribes", "property": "C02"})
         ex.explore(run)
         return ex
@@ -552,10 +552,10 @@ def _verify_deserialize(self, decl):
                 ex.oblige("no-exc", z3.BoolVal(False), f"{e.cls}@L{line}",
                           {"why": f"{e.cls} escapes from deserialize (only the documented ValueError may)",
                            "property": "C03"})
-            ex.oblige("mode-restored-on-raise", V.CH(robj.fields["st"]) == ch0, f"{e.cls}@L{line}",
+            ex.oblige("mode-restored-on-raise", V.CH(ex.obj(r).fields["st"]) == ch0, f"{e.cls}@L{line}",
                       {"why": "chunked reading mode not restored when deserialize raises", "property": "C15"})
             return
-        ex.oblige("mode-restored", V.CH(robj.fields["st"]) == ch0, "normal",
+        ex.oblige("mode-restored", V.CH(ex.obj(r).fields["st"]) == ch0, "normal",
                   {"why": "chunked reading mode after deserialize differs from the mode on entry", "property": "C15"})
         o = ex.obj(ret)
         if o is None:
@@ -578,7 +578,7 @@ def _verify_deserialize(self, decl):
         ex.oblige("byte-size", bs == V.POS(final) - V.POS(s0) if bs is not None and is_int(bs) else z3.BoolVal(False),
                   "normal", {"why": "byte_size differs from the number of bytes consumed", "property": "C03"})
         # the summary every caller of this deserializer assumes (GenExec.nested_deserialize)
-        fs = robj.fields["st"]
+        fs = ex.obj(r).fields["st"]
         ex.oblige("summary", z3.And(V.lex_le(fs, s0), V.state_ok(ex, fs)),
                   "measure", {"why": "deserialize does not keep the reader measure (chunk start, position) from moving back",
                               "property": "C03"})
@@ -586,7 +586,7 @@ def _verify_deserialize(self, decl):
             pre = V.REM(s0) > 0 if self.progress[decl.name] == "always" else z3.And(V.CH(s0), V.REM(s0) > 0)
             ex.oblige("summary", z3.Implies(pre, V.lex_lt(fs, s0)), "progress",
                       {"why": "deserialize consumes nothing although data remains", "property": "C03"})
-        ex.oblige("final-state", robj.fields["st"] == V.setch(ex, final, ch0), "normal",
+        ex.oblige("final-state", ex.obj(r).fields["st"] == V.setch(ex, final, ch0), "normal",
                   {"why": "reader state after deserialize differs from the prescribed one", "property": "C03"})
     ex.explore(run)
     return ex
